@@ -41,7 +41,7 @@ func c06BaselineDocs() [][]byte {
 
 func runC06(c *Ctx) {
 	c.Rep.Rule = "a case is (configuration, history of earlier documents, document): the long-used instance's output must equal a fresh instance's, Convert must equal Parse+Render, and re-rendering a tree must give the same bytes and leave the tree unchanged; distinct by hash; non-trivial = the history has >= 2 calls and a document with references, ids, footnotes, quotes or tables"
-	cfgs := []Cfg{{Ext: "core"}, {Ext: "gfm"}, {Ext: "all", AutoID: true, Attr: true}, {Ext: "all", Unsafe: true, XHTML: true}, {Ext: "typo"}, {Ext: "footnote", AutoID: true}, {Ext: "table", TableAlign: 2}, {Ext: "table", TableAlign: 1}, {Ext: "gfm", XHTML: true}, {Ext: "cjk"}, {Ext: "footnote", FnPrefix: "article1-"}, {Ext: "gfm+footnote", FnPrefix: "p-", FnPrefixFunc: true}}
+	cfgs := []Cfg{{Ext: "core"}, {Ext: "gfm"}, {Ext: "all", AutoID: true, Attr: true}, {Ext: "all", Unsafe: true, XHTML: true}, {Ext: "typo"}, {Ext: "footnote", AutoID: true}, {Ext: "table", TableAlign: 2}, {Ext: "table", TableAlign: 1}, {Ext: "gfm", XHTML: true}, {Ext: "cjk"}, {Ext: "footnote", FnPrefix: "article1-"}, {Ext: "gfm+footnote", FnPrefix: "p-", FnPrefixFunc: true}, {Ext: "all", Opts: true}, {Ext: "typo", Opts: true}}
 	nHist := 250
 	histLen := 12
 	if !c.Quick() {
